@@ -82,84 +82,269 @@ Proof.
   unfold sk in Sa. injection Sa as Sm _. rewrite Sm. apply existsb_ext_all. intros. apply IHf.
 Qed.
 
-(* ---------- lock_parents, exactly ---------- *)
-Definition lp_node (n : nat) (ms : list nat) (k : nat) (x : node) : node :=
-  if mem k ms && negb (mem n (n_children x)) then set_locked x else x.
+(* ---------- lock: only lock flags change, and only upwards ---------- *)
+Definition lkonly (g g' : graph) : Prop :=
+  length g = length g' /\
+  forall k x, g_get g k = Some x -> exists y, g_get g' k = Some y /\ (y = x \/ y = set_locked x).
 
-Lemma lock_parents_spec : forall n ms g k,
-  g_get (lock_parents g n ms) k = option_map (lp_node n ms k) (g_get g k).
+Lemma lkonly_refl : forall g, lkonly g g.
+Proof. split; auto. intros. eauto. Qed.
+
+Lemma lkonly_trans : forall g1 g2 g3, lkonly g1 g2 -> lkonly g2 g3 -> lkonly g1 g3.
 Proof.
-  unfold lock_parents. induction ms as [|m r IH]; intros g k.
-  - cbn. unfold lp_node. cbn. destruct (g_get g k); reflexivity.
-  - cbn [fold_left]. rewrite IH. clear IH. unfold lp_node. cbn [mem existsb].
-    destruct (g_get g m) eqn:Em.
-    + destruct (mem n (n_children n0)) eqn:C.
-      * destruct (g_get g k) eqn:Ek; cbn; auto.
-        destruct (Nat.eqb k m) eqn:Ekm; cbn; auto.
-        apply Nat.eqb_eq in Ekm. subst. rewrite Em in Ek. injection Ek as <-. rewrite C. cbn. rewrite andb_false_r. reflexivity.
-      * rewrite g_get_mod. destruct (Nat.eqb k m) eqn:Ekm.
-        -- apply Nat.eqb_eq in Ekm. subst. rewrite Em. cbn. rewrite C. cbn. f_equal.
-           destruct (mem m r && negb (existsb (Nat.eqb n) (n_children n0))); reflexivity.
-        -- cbn. reflexivity.
-    + destruct (Nat.eqb k m) eqn:Ekm; cbn; auto.
-      apply Nat.eqb_eq in Ekm. subst. rewrite Em. reflexivity.
+  intros g1 g2 g3 [L1 H1] [L2 H2]. split; [congruence|]. intros k x E.
+  destruct (H1 _ _ E) as [y [Ey Ry]]. destruct (H2 _ _ Ey) as [z [Ez Rz]]. exists z. split; auto.
+  destruct Ry as [->| ->]; destruct Rz as [->| ->]; auto.
 Qed.
 
-Lemma keep_lp_node : forall n ms k x, keep x (lp_node n ms k x).
-Proof. intros. unfold lp_node. destruct (_ && _); unfold keep; cbn; intuition. Qed.
-
-(* ---------- compile, exactly ---------- *)
-Definition cp_node (n : nat) (ms : list nat) (t : table) (k : nat) (x : node) : node :=
-  if Nat.eqb k n then set_snap t (lp_node n ms k x) else lp_node n ms k x.
-
-Lemma compile_spec : forall g n g', compile g n = Some g' ->
-  exists x t, g_get g n = Some x /\ defns (length g) g n = Some t /\
-              forall k, g_get g' k = option_map (cp_node n (n_mixins x) t k) (g_get g k).
+Lemma lkonly_mod : forall g m, lkonly g (g_mod g m set_locked).
 Proof.
-  unfold compile. intros g n g' H. destruct (g_get g n) eqn:E; [|discriminate].
-  destruct (defns (length g) g n) eqn:D; [|discriminate]. injection H as <-.
-  exists n0, t. repeat split; auto. intros k. rewrite g_get_mod. unfold cp_node.
-  destruct (Nat.eqb k n) eqn:Ekn.
-  - apply Nat.eqb_eq in Ekn. subst. rewrite lock_parents_spec. destruct (g_get g n); reflexivity.
-  - apply lock_parents_spec.
+  intros. split; [symmetry; apply length_g_mod|]. intros k x E. rewrite g_get_mod.
+  destruct (Nat.eqb k m) eqn:Ek.
+  - apply Nat.eqb_eq in Ek. subst. rewrite E. cbn. eauto.
+  - eauto.
 Qed.
 
-Lemma keep_cp_node : forall n ms t k x, (k = n -> True) -> keep x (cp_node n ms t k x).
+Lemma keep_set_locked : forall x, keep x (set_locked x).
+Proof. intros. unfold keep. cbn. intuition. Qed.
+
+Lemma lkonly_gkeep : forall g g', lkonly g g' -> gkeep g g'.
 Proof.
-  intros. unfold cp_node. destruct (Nat.eqb k n).
-  - eapply keep_trans; [apply keep_lp_node|]. unfold keep; cbn; intuition.
-  - apply keep_lp_node.
+  intros g g' [L H]. split; auto. intros n x E. destruct (H _ _ E) as [y [Ey R]]. exists y. split; auto.
+  destruct R as [->| ->]; [apply keep_refl | apply keep_set_locked].
 Qed.
+
+Lemma lkonly_back : forall g g' k y, lkonly g g' -> g_get g' k = Some y ->
+  exists x, g_get g k = Some x /\ (y = x \/ y = set_locked x).
+Proof.
+  intros g g' k y [L H] E. assert (k < length g) as Lk by (rewrite L; eapply g_get_lt; eauto).
+  destruct (g_get_some _ _ Lk) as [x Ex]. destruct (H _ _ Ex) as [y' [Ey' R]]. rewrite E in Ey'. injection Ey' as <-. eauto.
+Qed.
+
+(* LC E g: every locked node outside E has all its mixins locked *)
+Definition LC (E : nat -> Prop) (g : graph) : Prop :=
+  forall k x q y, g_get g k = Some x -> n_locked x = true -> ~ E k -> In q (n_mixins x) ->
+                  g_get g q = Some y -> n_locked y = true.
+
+Definition lfold (f : nat) (qs : list nat) (start : option graph) : option graph :=
+  fold_left (fun acc q => match acc with
+                          | Some a => match g_get a q with
+                                      | Some y => if n_locked y then Some a else lock_rec f a q
+                                      | None => None
+                                      end
+                          | None => None
+                          end) qs start.
+
+Lemma lock_rec_S : forall f g m,
+  lock_rec (S f) g m = match g_get g m with
+                       | None => None
+                       | Some x => lfold f (n_mixins x) (Some (g_mod g m set_locked))
+                       end.
+Proof. reflexivity. Qed.
+
+Lemma lfold_none : forall f qs, lfold f qs None = None.
+Proof. unfold lfold. induction qs; cbn; auto. Qed.
+
+Lemma lfold_cons : forall f q qs a,
+  lfold f (q :: qs) (Some a) = lfold f qs (match g_get a q with
+                                           | Some y => if n_locked y then Some a else lock_rec f a q
+                                           | None => None end).
+Proof. reflexivity. Qed.
+
+Definition locked_at (g : graph) (k : nat) : Prop := exists y, g_get g k = Some y /\ n_locked y = true.
+
+Lemma locked_at_mono : forall g g' k, lkonly g g' -> locked_at g k -> locked_at g' k.
+Proof.
+  intros g g' k [L H] (y & Ey & Ly). destruct (H _ _ Ey) as [z [Ez R]]. exists z. split; auto.
+  destruct R as [->| ->]; auto.
+Qed.
+
+Lemma lock_rec_spec : forall f g m g', lock_rec f g m = Some g' ->
+  lkonly g g' /\ locked_at g' m /\ forall E, LC E g -> LC E g'.
+Proof.
+  induction f; intros g m g' H; [discriminate|].
+  rewrite lock_rec_S in H. destruct (g_get g m) as [x|] eqn:Em; [|discriminate].
+  assert (forall qs a gb, lfold f qs (Some a) = Some gb ->
+            lkonly a gb /\ (forall E, LC E a -> LC E gb) /\ (forall q, In q qs -> locked_at gb q)) as FOLD.
+  { induction qs as [|q qs IHqs]; intros a gb Hf.
+    - cbn in Hf. injection Hf as <-. split; [apply lkonly_refl|]. split; auto. intros q [].
+    - rewrite lfold_cons in Hf. destruct (g_get a q) as [y|] eqn:Eq; [|rewrite lfold_none in Hf; discriminate].
+      destruct (n_locked y) eqn:Ly.
+      + destruct (IHqs _ _ Hf) as (K & C & Q). split; auto. split; auto.
+        intros q' [<-|I]; auto. eapply locked_at_mono; eauto. exists y. auto.
+      + destruct (lock_rec f a q) as [a1|] eqn:R; [|rewrite lfold_none in Hf; discriminate].
+        destruct (IHf _ _ _ R) as (K1 & Q1 & C1). destruct (IHqs _ _ Hf) as (K2 & C2 & Q2).
+        split; [eapply lkonly_trans; eauto|]. split; [intros E HE; apply C2; apply C1; auto|].
+        intros q' [<-|I]; auto. eapply locked_at_mono; eauto. }
+  destruct (FOLD _ _ _ H) as (K & C & Q).
+  pose proof (lkonly_mod g m) as K0.
+  assert (locked_at (g_mod g m set_locked) m) as Lm0 by (eexists; split; [apply g_get_mod_same; eauto | reflexivity]).
+  split; [eapply lkonly_trans; eauto|]. split; [eapply locked_at_mono; eauto|].
+  intros E HE.
+  assert (LC (fun k => E k \/ k = m) (g_mod g m set_locked)) as HE0.
+  { intros k xk q y Ek Lk NE Iq Eq.
+    assert (k <> m) as Ne by (intros ->; apply NE; auto).
+    rewrite g_get_mod_other in Ek by auto.
+    rewrite g_get_mod in Eq. destruct (Nat.eqb q m) eqn:Eqm.
+    - destruct (g_get g m); [|discriminate]. cbn in Eq. injection Eq as <-. reflexivity.
+    - eapply (HE k xk q y); eauto. }
+  pose proof (C _ HE0) as HE1.
+  intros k xk q y Ek Lk NE Iq Eq.
+  destruct (Nat.eq_dec k m) as [->|Ne].
+  - destruct (lkonly_back _ _ _ _ (lkonly_trans _ _ _ K0 K) Ek) as [x0 [Ex0 R]]. rewrite Em in Ex0. injection Ex0 as <-.
+    assert (n_mixins xk = n_mixins x) as Mx by (destruct R as [->| ->]; reflexivity).
+    rewrite Mx in Iq. destruct (Q _ Iq) as (y' & Ey' & Ly'). congruence.
+  - eapply (HE1 k xk q y); eauto. intros [F|F]; auto.
+Qed.
+
+Lemma lock_rec_some : forall f g m, mterm f g m = true -> exists g', lock_rec f g m = Some g'.
+Proof.
+  induction f; intros g m T; [discriminate|].
+  rewrite mterm_S in T. rewrite lock_rec_S. destruct (g_get g m) as [x|] eqn:Em; [|discriminate].
+  assert (forall qs a, lkonly g a -> forallb (mterm f g) qs = true -> exists gb, lfold f qs (Some a) = Some gb) as FOLD.
+  { induction qs as [|q qs IHqs]; intros a K Tq.
+    - cbn. eauto.
+    - cbn in Tq. apply andb_true_iff in Tq. destruct Tq as [T1 T2]. rewrite lfold_cons.
+      assert (mterm f a q = true) as Ta.
+      { rewrite <- (mterm_same g a); auto. apply gkeep_same_sk. apply lkonly_gkeep. auto. }
+      pose proof (mterm_lt _ _ _ Ta) as Lq. destruct (g_get_some _ _ Lq) as [y Ey]. rewrite Ey.
+      destruct (n_locked y); [apply IHqs; auto|].
+      destruct (IHf _ _ Ta) as [a1 R]. rewrite R. apply IHqs; auto.
+      eapply lkonly_trans; [exact K|]. apply (lock_rec_spec _ _ _ _ R). }
+  apply FOLD; auto. apply lkonly_mod.
+Qed.
+
+(* ---------- lock_parents ---------- *)
+Definition pfold (F : nat) (n : nat) (ms : list nat) (start : option graph) : option graph :=
+  fold_left (fun acc m => match acc with
+                          | Some a => match g_get a m with
+                                      | Some y => if mem n (n_children y) then Some a else lock_rec F a m
+                                      | None => None
+                                      end
+                          | None => None
+                          end) ms start.
+
+Lemma lock_parents_eq : forall g n ms, lock_parents g n ms = pfold (length g) n ms (Some g).
+Proof. reflexivity. Qed.
+
+Lemma pfold_none : forall F n ms, pfold F n ms None = None.
+Proof. unfold pfold. induction ms; cbn; auto. Qed.
+
+Lemma pfold_cons : forall F n m ms a,
+  pfold F n (m :: ms) (Some a) = pfold F n ms (match g_get a m with
+                                               | Some y => if mem n (n_children y) then Some a else lock_rec F a m
+                                               | None => None end).
+Proof. reflexivity. Qed.
+
+Lemma lkonly_children : forall g g' k x y, lkonly g g' -> g_get g k = Some x -> g_get g' k = Some y ->
+  n_children y = n_children x /\ n_mixins y = n_mixins x /\ n_compiled y = n_compiled x /\ n_snap y = n_snap x /\
+  n_linkback y = n_linkback x /\ n_own y = n_own x /\ (n_locked x = true -> n_locked y = true).
+Proof.
+  intros g g' k x y [L H] Ex Ey. destruct (H _ _ Ex) as [y' [Ey' R]]. rewrite Ey in Ey'. injection Ey' as <-.
+  destruct R as [->| ->]; cbn; repeat split; auto.
+Qed.
+
+Lemma pfold_spec : forall F n ms a gb, pfold F n ms (Some a) = Some gb ->
+  lkonly a gb /\ (forall E, LC E a -> LC E gb) /\
+  (forall m y, In m ms -> g_get a m = Some y -> mem n (n_children y) = false -> locked_at gb m).
+Proof.
+  intros F n. induction ms as [|m ms IH]; intros a gb H.
+  - cbn in H. injection H as <-. split; [apply lkonly_refl|]. split; auto. intros m y [].
+  - rewrite pfold_cons in H. destruct (g_get a m) as [y|] eqn:Em; [|rewrite pfold_none in H; discriminate].
+    destruct (mem n (n_children y)) eqn:C.
+    + destruct (IH _ _ H) as (K & CL & Q). split; auto. split; auto.
+      intros m' y' [<-|I] Ey' Cy'; [congruence | eauto].
+    + destruct (lock_rec F a m) as [a1|] eqn:R; [|rewrite pfold_none in H; discriminate].
+      destruct (lock_rec_spec _ _ _ _ R) as (K1 & Q1 & C1). destruct (IH _ _ H) as (K2 & C2 & Q2).
+      split; [eapply lkonly_trans; eauto|]. split; [intros E HE; apply C2; apply C1; auto|].
+      intros m' y' [<-|I] Ey' Cy'.
+      * eapply locked_at_mono; eauto.
+      * destruct K1 as [_ K1]. destruct (K1 _ _ Ey') as [z [Ez Rz]].
+        eapply (Q2 m' z); auto. destruct Rz as [->| ->]; auto.
+Qed.
+
+Lemma pfold_some : forall F n ms g a, lkonly g a -> (forall m, In m ms -> mterm F g m = true) ->
+  exists gb, pfold F n ms (Some a) = Some gb.
+Proof.
+  intros F n. induction ms as [|m ms IH]; intros g a K T.
+  - cbn. eauto.
+  - rewrite pfold_cons.
+    assert (mterm F a m = true) as Ta.
+    { rewrite <- (mterm_same g a); [apply T; left; auto|]. apply gkeep_same_sk. apply lkonly_gkeep. auto. }
+    pose proof (mterm_lt _ _ _ Ta) as Lm. destruct (g_get_some _ _ Lm) as [y Ey]. rewrite Ey.
+    destruct (mem n (n_children y)).
+    + eapply IH; eauto. intros. apply T. right. auto.
+    + destruct (lock_rec_some _ _ _ Ta) as [a1 R]. rewrite R. eapply (IH g); [|intros; apply T; right; auto].
+      eapply lkonly_trans; [exact K|]. apply (lock_rec_spec _ _ _ _ R).
+Qed.
+
+(* ---------- compile ---------- *)
+Lemma compile_inv : forall g n g', compile g n = Some g' ->
+  exists x g1 t, g_get g n = Some x /\ lock_parents g n (n_mixins x) = Some g1 /\ defns (length g) g n = Some t /\
+                 g' = g_mod g1 n (set_snap t).
+Proof.
+  unfold compile. intros g n g' H. destruct (g_get g n) as [x|] eqn:E; [|discriminate].
+  destruct (lock_parents g n (n_mixins x)) as [g1|] eqn:P; [|discriminate].
+  destruct (defns (length g) g n) as [t|] eqn:D; [|discriminate]. injection H as <-. eauto 8.
+Qed.
+
+Lemma keep_set_snap : forall t x, keep x (set_snap t x).
+Proof. intros. unfold keep. cbn. intuition. Qed.
 
 Lemma compile_gkeep : forall g n g', compile g n = Some g' -> gkeep g g'.
 Proof.
-  intros. destruct (compile_spec _ _ _ H) as (x & t & _ & _ & S).
-  eapply gkeep_pointwise; [exact S|]. intros. apply keep_cp_node. auto.
+  intros g n g' H. destruct (compile_inv _ _ _ H) as (x & g1 & t & E & P & D & ->).
+  rewrite lock_parents_eq in P. destruct (pfold_spec _ _ _ _ _ P) as (K & _ & _).
+  eapply gkeep_trans; [apply lkonly_gkeep; exact K|].
+  eapply gkeep_pointwise with (F := fun k y => if Nat.eqb k n then set_snap t y else y).
+  - intros k. rewrite g_get_mod. destruct (Nat.eqb k n) eqn:Ek.
+    + apply Nat.eqb_eq in Ek. subst. reflexivity.
+    + destruct (g_get g1 k); reflexivity.
+  - intros k y. destruct (Nat.eqb k n); [apply keep_set_snap | apply keep_refl].
 Qed.
 
 Lemma compile_other : forall g n g' k x, compile g n = Some g' -> k <> n -> g_get g k = Some x ->
   exists y, g_get g' k = Some y /\ n_compiled y = n_compiled x /\ n_snap y = n_snap x.
 Proof.
-  intros. destruct (compile_spec _ _ _ H) as (x0 & t & _ & _ & S). rewrite S, H1. cbn.
-  eexists. split; eauto. unfold cp_node. apply Nat.eqb_neq in H0. rewrite H0. unfold lp_node.
-  destruct (_ && _); cbn; auto.
+  intros g n g' k x H Ne Ex. destruct (compile_inv _ _ _ H) as (x0 & g1 & t & E & P & D & ->).
+  rewrite lock_parents_eq in P. destruct (pfold_spec _ _ _ _ _ P) as (K & _ & _).
+  destruct (proj2 K _ _ Ex) as [y [Ey R]]. exists y. rewrite g_get_mod_other by auto. split; auto.
+  destruct R as [->| ->]; auto.
 Qed.
 
 Lemma compile_self : forall g n g', compile g n = Some g' ->
   exists y, g_get g' n = Some y /\ n_compiled y = true /\ Some (n_snap y) = defns (length g) g n.
 Proof.
-  intros. destruct (compile_spec _ _ _ H) as (x0 & t & E & D & S). rewrite S, E. cbn.
-  eexists. split; eauto. unfold cp_node. rewrite Nat.eqb_refl. cbn. auto.
+  intros g n g' H. destruct (compile_inv _ _ _ H) as (x0 & g1 & t & E & P & D & ->).
+  rewrite lock_parents_eq in P. destruct (pfold_spec _ _ _ _ _ P) as (K & _ & _).
+  destruct (proj2 K _ _ E) as [y [Ey R]]. exists (set_snap t y). split; [apply g_get_mod_same; auto|]. cbn. auto.
 Qed.
 
 Lemma compile_locks : forall g n g' x m y, compile g n = Some g' -> g_get g n = Some x -> In m (n_mixins x) ->
   g_get g m = Some y -> mem n (n_children y) = false -> exists y', g_get g' m = Some y' /\ n_locked y' = true.
 Proof.
-  intros. destruct (compile_spec _ _ _ H) as (x0 & t & E & D & S). rewrite H0 in E. injection E as <-.
-  rewrite S, H2. cbn. eexists. split; eauto. unfold cp_node, lp_node.
-  assert (mem m (n_mixins x) = true) as M.
-  { unfold mem. apply existsb_exists. exists m. split; auto. apply Nat.eqb_refl. }
-  rewrite M, H3. cbn. destruct (Nat.eqb m n); cbn; reflexivity.
+  intros g n g' x m y H E Im Em C. destruct (compile_inv _ _ _ H) as (x0 & g1 & t & E0 & P & D & ->).
+  rewrite E in E0. injection E0 as <-.
+  rewrite lock_parents_eq in P. destruct (pfold_spec _ _ _ _ _ P) as (K & _ & Q).
+  destruct (Q m y Im Em C) as (y1 & Ey1 & Ly1). rewrite g_get_mod. destruct (Nat.eqb m n) eqn:Emn.
+  - apply Nat.eqb_eq in Emn. subst m. rewrite Ey1. cbn. eexists. split; eauto.
+  - eauto.
+Qed.
+
+Lemma compile_LC : forall g n g' E, compile g n = Some g' -> LC E g -> LC E g'.
+Proof.
+  intros g n g' E H HE. destruct (compile_inv _ _ _ H) as (x0 & g1 & t & E0 & P & D & ->).
+  rewrite lock_parents_eq in P. destruct (pfold_spec _ _ _ _ _ P) as (K & C & _).
+  pose proof (C _ HE) as H1. intros k xk q y Ek Lk NE Iq Eq.
+  assert (exists xk1, g_get g1 k = Some xk1 /\ n_locked xk1 = n_locked xk /\ n_mixins xk1 = n_mixins xk) as (xk1 & Ek1 & A1 & A2).
+  { rewrite g_get_mod in Ek. destruct (Nat.eqb k n) eqn:Ekn.
+    - apply Nat.eqb_eq in Ekn. subst k. destruct (g_get g1 n); [|discriminate]. cbn in Ek. injection Ek as <-. eauto.
+    - eauto. }
+  assert (exists y1, g_get g1 q = Some y1 /\ n_locked y1 = n_locked y) as (y1 & Ey1 & B1).
+  { rewrite g_get_mod in Eq. destruct (Nat.eqb q n) eqn:Eqn.
+    - apply Nat.eqb_eq in Eqn. subst q. destruct (g_get g1 n); [|discriminate]. cbn in Eq. injection Eq as <-. eauto.
+    - eauto. }
+  rewrite <- B1. eapply (H1 k xk1 q y1); eauto; congruence.
 Qed.
 
 (* ---------- _update ---------- *)
@@ -303,7 +488,11 @@ Qed.
 Lemma compile_some : forall g n, mterm (length g) g n = true -> exists g', compile g n = Some g'.
 Proof.
   intros. unfold compile. destruct (mterm_defns _ _ _ H) as [t D].
-  pose proof (mterm_lt _ _ _ H) as L. destruct (g_get_some _ _ L) as [x E]. rewrite E, D. eauto.
+  pose proof (mterm_lt _ _ _ H) as L. destruct (g_get_some _ _ L) as [x E]. rewrite E, D.
+  destruct (pfold_some (length g) n (n_mixins x) g g (lkonly_refl g)) as [g1 P].
+  - intros m Im. destruct (length g) as [|f] eqn:Lg; [discriminate|]. rewrite mterm_S, E in H.
+    rewrite forallb_forall in H. eapply mterm_mono_gen; [apply agree_refl | | apply H; auto]. lia.
+  - rewrite lock_parents_eq, P. eauto.
 Qed.
 
 Lemma upd_some : forall f g n,
@@ -324,4 +513,104 @@ Proof.
   - destruct (compile_some g n) as [g1 CP]; [apply M; eapply g_get_lt; eauto|]. rewrite CP.
     apply FOLD; auto. eapply compile_gkeep; eauto.
   - apply FOLD; auto. apply gkeep_refl.
+Qed.
+
+(* _update keeps "every locked node has all its mixins locked" *)
+Lemma upd_LC : forall f g n g' E, upd f g n = Some g' -> LC E g -> LC E g'.
+Proof.
+  induction f; intros g n g' E H HE; [discriminate|].
+  rewrite upd_S in H. destruct (g_get g n) eqn:En; [|discriminate].
+  assert (forall cs ga gb, ufold f cs (Some ga) = Some gb -> LC E ga -> LC E gb) as FOLD.
+  { induction cs as [|c cs IHcs]; intros ga gb Hf Ha.
+    - cbn in Hf. injection Hf as <-. auto.
+    - rewrite ufold_cons in Hf. destruct (upd f ga c) as [g1|] eqn:U; [|rewrite ufold_none in Hf; discriminate].
+      eapply IHcs; eauto. }
+  destruct (n_compiled n0).
+  - destruct (compile g n) as [g1|] eqn:C; [|rewrite ufold_none in H; discriminate].
+    eapply FOLD; eauto. eapply compile_LC; eauto.
+  - eapply FOLD; eauto.
+Qed.
+
+(* ---------- _update locks, for every node it rebuilds, the non-linkback parents of that node ---------- *)
+(* children only list linkback derivations (part of the invariant of reachable graphs) *)
+Definition ChildLb (g : graph) : Prop :=
+  forall p x c y, g_get g p = Some x -> In c (n_children x) -> g_get g c = Some y -> n_linkback y = true.
+
+Lemma ChildLb_gkeep : forall g g', gkeep g g' -> ChildLb g -> ChildLb g'.
+Proof.
+  intros g g' K H p x' c y' Ep Ic Ec.
+  assert (forall k z', g_get g' k = Some z' -> exists z, g_get g k = Some z /\ keep z z') as Back.
+  { intros k z' Ez'. destruct K as [L K]. assert (k < length g) as Lk by (rewrite L; eapply g_get_lt; eauto).
+    destruct (g_get_some _ _ Lk) as [z Ez]. destruct (K _ _ Ez) as [z'' [Ez'' Kz]]. rewrite Ez' in Ez''. injection Ez'' as <-. eauto. }
+  destruct (Back _ _ Ep) as [x [Ex Kx]]. destruct (Back _ _ Ec) as [y [Ey Ky]].
+  destruct Kx as (_ & _ & Kc & _). destruct Ky as (_ & _ & _ & Kl & _). rewrite <- Kl. rewrite <- Kc in Ic. exact (H p x c y Ex Ic Ey).
+Qed.
+
+Definition UL (V : nat -> Prop) (g' : graph) : Prop :=
+  forall k y m z, V k -> g_get g' k = Some y -> n_compiled y = true -> n_linkback y = false ->
+                  In m (n_mixins y) -> g_get g' m = Some z -> n_locked z = true.
+
+Lemma UL_later : forall (V V2 : nat -> Prop) g2 g3, UL V g2 -> UR V2 g2 g3 -> UL V g3.
+Proof.
+  intros V V2 g2 g3 H (K & C & _) k y m z Vk Ey Cy Ly Im Ez.
+  assert (forall j w', g_get g3 j = Some w' -> exists w, g_get g2 j = Some w /\ keep w w') as Back.
+  { intros j w' Ew'. destruct K as [L K]. assert (j < length g2) as Lj by (rewrite L; eapply g_get_lt; eauto).
+    destruct (g_get_some _ _ Lj) as [w Ew]. destruct (K _ _ Ew) as [w'' [Ew'' Kw]]. rewrite Ew' in Ew''. injection Ew'' as <-. eauto. }
+  destruct (Back _ _ Ey) as [y2 [Ey2 Ky]]. destruct (Back _ _ Ez) as [z2 [Ez2 Kz]].
+  destruct Ky as (_ & Km & _ & Kl & _). destruct Kz as (_ & _ & _ & _ & Klk & _).
+  apply Klk. eapply (H k y2 m z2); eauto; try congruence.
+  pose proof (C k) as Ck. rewrite (compiled_b_get _ _ _ Ey), (compiled_b_get _ _ _ Ey2) in Ck. congruence.
+Qed.
+
+Lemma compile_UL : forall g n g', ChildLb g -> compile g n = Some g' -> UL (eq n) g'.
+Proof.
+  intros g n g' H C k y m z <- Ey Cy Ly Im Ez.
+  pose proof (compile_gkeep _ _ _ C) as K.
+  assert (forall j w', g_get g' j = Some w' -> exists w, g_get g j = Some w /\ keep w w') as Back.
+  { intros j w' Ew'. destruct K as [L K]. assert (j < length g) as Lj by (rewrite L; eapply g_get_lt; eauto).
+    destruct (g_get_some _ _ Lj) as [w Ew]. destruct (K _ _ Ew) as [w'' [Ew'' Kw]]. rewrite Ew' in Ew''. injection Ew'' as <-. eauto. }
+  destruct (Back _ _ Ey) as [x [Ex Kx]]. destruct (Back _ _ Ez) as [w [Ew Kw]].
+  destruct Kx as (_ & Km & _ & Kl & _). rewrite <- Km in Im. rewrite <- Kl in Ly.
+  destruct (compile_locks _ _ _ _ _ _ C Ex Im Ew) as (z' & Ez' & Lz'); [|congruence].
+  destruct (mem n (n_children w)) eqn:M; auto. unfold mem in M. apply existsb_exists in M.
+  destruct M as [n' [In' En']]. apply Nat.eqb_eq in En'. subst n'.
+  pose proof (H _ _ _ _ Ew In' Ex). congruence.
+Qed.
+
+Lemma UL_or : forall (V1 V2 : nat -> Prop) g, UL V1 g -> UL V2 g -> UL (fun k => V1 k \/ V2 k) g.
+Proof. intros V1 V2 g H1 H2 k y m z [Vk|Vk]; eauto. Qed.
+
+Lemma UL_ext : forall (V W : nat -> Prop) g, (forall k, W k -> V k) -> UL V g -> UL W g.
+Proof. intros V W g I H k y m z Wk. apply H. auto. Qed.
+
+Lemma upd_UL : forall f g n g', ChildLb g -> upd f g n = Some g' -> UL (visited f g n) g'.
+Proof.
+  induction f; intros g n g' CL H; [discriminate|].
+  rewrite upd_S in H. destruct (g_get g n) eqn:E; [|discriminate].
+  assert (forall cs ga gb, gkeep g ga -> ufold f cs (Some ga) = Some gb ->
+            UL (fun k => exists c, In c cs /\ visited f g c k) gb /\ UR (fun _ => True) ga gb) as FOLD.
+  { induction cs as [|c cs IHcs]; intros ga gb K Hf.
+    - cbn in Hf. injection Hf as <-. split; [|apply UR_refl]. intros k y m z [c [[] _]].
+    - rewrite ufold_cons in Hf. destruct (upd f ga c) as [g1|] eqn:U; [|rewrite ufold_none in Hf; discriminate].
+      pose proof (IHf _ _ _ (ChildLb_gkeep _ _ K CL) U) as L1.
+      destruct (upd_spec _ _ _ _ U) as [R1 _].
+      assert (gkeep g g1) as K1 by (eapply gkeep_trans; [exact K | apply R1]).
+      destruct (IHcs _ _ K1 Hf) as [L2 R2].
+      assert (forall k, visited f ga c k <-> visited f g c k) as VV.
+      { intros k. unfold visited. rewrite (lb_b_same g ga); [tauto|]. apply gkeep_same_sk. auto. }
+      split.
+      + eapply UL_ext; [|apply UL_or; [eapply UL_later; [exact L1 | exact R2] | exact L2]].
+        intros k [c' [[<- |I] V]]; [left; apply VV; auto | right; eauto].
+      + eapply UR_weaken; [|eapply UR_trans; [exact R1 | exact R2]]. auto. }
+  assert (forall k, visited (S f) g n k <-> (n = k \/ exists c, In c (n_children n0) /\ visited f g c k)) as VS.
+  { intros k. unfold visited. cbn [lb_b]. rewrite E, orb_true_iff, Nat.eqb_eq, existsb_exists. tauto. }
+  destruct (n_compiled n0) eqn:C.
+  - destruct (compile g n) as [g1|] eqn:CP; [|rewrite ufold_none in H; discriminate].
+    destruct (FOLD _ _ _ (compile_gkeep _ _ _ CP) H) as [L2 R2].
+    eapply UL_ext; [|apply UL_or; [eapply UL_later; [apply (compile_UL _ _ _ CL CP) | exact R2] | exact L2]].
+    intros k Q. apply VS in Q. exact Q.
+  - destruct (FOLD _ _ _ (gkeep_refl g) H) as [L2 R2].
+    intros k y m z Q Ey Cy. apply VS in Q. destruct Q as [<- |Q]; [|eapply L2; eauto].
+    exfalso. pose proof (proj1 (proj2 R2) n) as Cn.
+    rewrite (compiled_b_get _ _ _ Ey), (compiled_b_get _ _ _ E) in Cn. congruence.
 Qed.
